@@ -1,2 +1,61 @@
-(* C06 -- theorem statements are being added; see DESIGN.md. *)
-From HS Require Import Lib.Base.
+(* C06 -- multipart/byteranges bodies are well-formed, complete and in request order. *)
+From Coq Require Import String.
+From HS Require Import Lib.Base Lib.Bytes Lib.Dec Model.Range Model.Body Model.Serve Spec.Multipart
+  Proofs.BodyP Proofs.BodyRun Proofs.EchoP Proofs.ServeP Proofs.ServeProps Proofs.MultipartP.
+
+(* The wire format (Spec/Multipart.v): for each range in request order CRLF "--B" CRLF
+   "Content-Range: bytes a-b/L" CRLF, the entity's own headers, CRLF, the bytes a..=b; then
+   CRLF "--B--" CRLF. The model's pre-rendered part header is that part head ... *)
+Theorem c06_part_header : forall L eh r, hdr_of L (each_part_headers eh) r = mp_part_head L eh r.
+Proof. exact hdr_of_is_part_head. Qed.
+
+(* ... and the pre-computed total is the length of the wire format: for every number of ranges,
+   every digit width (entity lengths up to 2^64-1) and every set of entity headers. *)
+Theorem c06_length : forall content L eh rs, Forall (fun r => fst r <= snd r) rs ->
+  tail_len (map (hdr_of L (each_part_headers eh)) rs) rs + TRAILER_LEN = lenN (mp_wire content L eh rs).
+Proof. exact multipart_total_is_wire_length. Qed.
+
+(* Every 206 without a top-level Content-Range (i.e. every multi-range 206) to GET: the ranges are
+   the satisfiable ranges of the Range header in force, in request order, at least two; the
+   headers are the validator block plus Content-Length = |wire format| and Content-Type
+   multipart/byteranges; boundary=B; entity headers are inside the parts iff there was no If-Range;
+   and for an entity whose streams honour the contract -- however they chunk, with empty chunks
+   and Pendings -- the body never reports an error, is at every moment a prefix of the wire format,
+   and is exactly the wire format when it ends. *)
+Theorem c06_multipart_response : forall fmt_date parse_date content now ent req r streams,
+  e_len ent < U64 -> serve_model fmt_date parse_date now ent req = Ok r -> r_meth req = GET ->
+  status r = 206 -> values H_CONTENT_RANGE (hdrs r) = [] ->
+  exists rs total,
+    let eh := if snd (if_range_gate (e_etag ent) req) then e_hdrs ent else [] in
+    ranges_wf (e_len ent) rs /\ (2 <= length rs)%nat /\
+    range_parse (fst (if_range_gate (e_etag ent) req)) (e_len ent) = RSat rs /\
+    hdrs r = h0_of fmt_date now ent ++ [(H_CONTENT_LENGTH, dec total); (H_CONTENT_TYPE, V_MULTIPART)] /\
+    total = lenN (mp_wire content (e_len ent) eh rs) /\
+    (honest_for content streams rs ->
+     forall n rs_ bf, run n streams (fst (body_init streams (rplan r))) = Ok (rs_, bf) ->
+       existsb is_perr rs_ = false /\
+       (exists rest, data_bytes rs_ ++ rest = mp_wire content (e_len ent) eh rs) /\
+       (existsb is_pend rs_ = true -> data_bytes rs_ = mp_wire content (e_len ent) eh rs)).
+Proof. exact multipart_response. Qed.
+
+(* the streaming invariant behind it, including the order of the entity reads: one get_range call
+   per range, in request order (`rev (m_calls m) = firstn (length (m_calls m)) (m_ranges m)` is
+   part of WState) *)
+Theorem c06_wire_step : forall content streams m pend, MInv m -> honest_for content streams (m_ranges m) ->
+  WState content m pend ->
+  exists m' r, mp_poll MP_FUEL streams m = Ok (m', r) /\ is_perr r = false /\ MInv m' /\
+               m_ranges m' = m_ranges m /\
+               exists pend', WState content m' pend' /\ pend = res_bytes r ++ pend' /\ (r = PEnd -> pend = []).
+Proof. exact wire_step. Qed.
+
+Example c06_instance :
+  mp_wire (fun p => p) 240 [(bs "content-type", bs "t")] [(0, 2); (3, 5)] =
+  bs (String "013" (String "010" "--B")) ++ [13;10] ++ bs "Content-Range: bytes 0-1/240" ++ [13;10] ++ bs "content-type: t" ++ [13;10;13;10] ++ [0;1]
+  ++ [13;10] ++ bs "--B" ++ [13;10] ++ bs "Content-Range: bytes 3-4/240" ++ [13;10] ++ bs "content-type: t" ++ [13;10;13;10] ++ [3;4]
+  ++ [13;10] ++ bs "--B--" ++ [13;10].
+Proof. vm_compute. reflexivity. Qed.
+
+Print Assumptions c06_part_header.
+Print Assumptions c06_length.
+Print Assumptions c06_multipart_response.
+Print Assumptions c06_wire_step.
